@@ -130,10 +130,15 @@ class ScenarioWorld:
                                         workdir=self.workdir)
         b = self.cfg["bases"][sh["base"]]
         consts = dict(b.get("constants") or {})
-        consts.update({k: _num(v) for k, v in sh["constants"].items()})
+        timed = {k: v for k, v in sh["constants"].items() if isinstance(v, str) and "t" in v}
+        consts.update({k: (0.0 if k in timed else _num(v)) for k, v in sh["constants"].items()})
         pts = dict(b.get("points") or {})
         pts.update({k: _pts(v) for k, v in sh["points"].items()})
-        return T.build(sh["template"], sh["start"], sh["stop"], sh["dt"], constants=consts, points=pts, initial=b.get("initial"))
+        fresh = T.build(sh["template"], sh["start"], sh["stop"], sh["dt"], constants=consts, points=pts, initial=b.get("initial"))
+        for k, expr in timed.items():
+            # a constant given as an expression of t ("0.5*t"): the element IS that function of time
+            fresh.equations[k] = (lambda e: (lambda t: float(eval(e, {"t": t}))))(expr)
+        return fresh
 
     def observe(self, key, fmt="df"):
         """run exactly one scenario through the public API and return {element: {t: v}}"""
